@@ -15,7 +15,11 @@ from harness.runner import Result, library_frame
 ID = "C07"
 LEVEL = "exploration"
 RULE = ("Hypothesis-generated buses: 0..70 gear with arbitrary initial short addresses (duplicates allowed), permitted "
-        "subsets, readdress/dry-run flags, scripted random-address streams, optional faulty unit; distinct by case "
+        "subsets, readdress/dry-run flags, scripted random-address streams (up to 4 draws per unit from a tiny pool, and for "
+        "two or three units a common run of 0..40 identical draws before they differ), faulty units (never stores / stores "
+        "but does not answer VERIFY / fails once) anywhere on the bus, with or without clashes; listed buses with a run of "
+        "0..40 consecutive clashes x both readdress modes x other (healthy or faulty) units below / above the clashing "
+        "ones; distinct by case "
         "fingerprint; non-trivial = at least one clash restart (RANDOMISE issued more than once), or more than 64 units, "
         "or the permitted set is exhausted, or a unit draws 0 or 0xFFFFFF; two runs in flight: (two such buses of 0..6 gear "
         "each with their own permitted sets / flags, advance order) - fixed pairs of buses x a list of advance orders "
@@ -27,13 +31,18 @@ ASSUMPTIONS = [
     "and WITHDRAW only in ENABLED (IEC 62386-102 9.14.2; dali/tests/fakes.py models the same)",
     "two or more simultaneous answers are a framing error; the 15-minute initialisation timer is not modelled",
     "clashing units eventually draw different random addresses (fallback draws are distinct per unit)",
-    "faulty-unit cases are only generated where every participant would be programmed and no clash is scripted",
+    "a unit 'does not confirm its new address' when a PROGRAM SHORT ADDRESS reached it (it is in initialisation mode and "
+    "its random address equals the search address) and it either did not store that address or does not answer VERIFY "
+    "SHORT ADDRESS; ProgramShortAddressFailure is demanded exactly when that happened to some unit during the run, however "
+    "many clash restarts follow, and is spurious otherwise (a faulty unit that is never programmed - not participating, "
+    "dry run, no address left - is an ordinary unit)",
     "Commissioning runs in flight at the same time on separate buses (one driver per DALI line in one process) are "
     "independent: each must put on its bus, do to its gear and return (or raise) exactly what it does when it runs alone "
     "on a fresh identical bus",
 ]
 
 POOL = [0, 1, 2, 0x7FFFFF, 0x800000, 0xFFFFFE, 0xFFFFFF]
+FAULTS = ["ignore_program", "mute_verify", "fail_once"]
 HARD_CAP = 400000
 
 
@@ -91,6 +100,8 @@ def prep_single(case):
             g.ignore_program = True
         if u.get("fault") == "mute_verify":
             g.mute_verify = True
+        if u.get("fault") == "fail_once":
+            g.program_failures_left = 1
         if u.get("state"):
             # left over from an earlier run that never reached its TERMINATE (abandoned, failed, interrupted)
             g.init_state = u["state"]
@@ -127,7 +138,8 @@ def judge_single(job, oc):
     permitted = case["permitted"]
     readdress, dry = case["readdress"], case["dry_run"]
     n = len(units)
-    faulty = [i for i, u in enumerate(case["units"]) if u.get("fault")]
+    # units that were told to take an address and do not confirm it (observed by the unit models)
+    faulty = [i for i, u in enumerate(units) if "program-not-confirmed" in u.flags]
     raised = None
     if oc[0] == "raised":
         e = oc[1]
@@ -142,8 +154,9 @@ def judge_single(job, oc):
     out = []
     if faulty:
         if raised is None:
-            out.append(("C07:missing-ProgramShortAddressFailure", "%s: unit %d does not confirm its address but the sequence "
-                        "completed normally" % (where, faulty[0])))
+            out.append(("C07:missing-ProgramShortAddressFailure", "%s: unit %d (%s) was programmed and does not confirm its "
+                        "address but the sequence completed normally"
+                        % (where, faulty[0], case["units"][faulty[0]].get("fault"))))
         return out
     if raised is not None:
         return [("C07:spurious-ProgramShortAddressFailure", "%s raised %r although every unit confirms its address" % (where, raised))]
@@ -350,6 +363,11 @@ def features(case):
         f.append("permitted-set-exhausted")
     if any(u.get("fault") for u in case["units"]):
         f.append("faulty-unit")
+        if any(c > 1 for c in pf.values()):
+            f.append("faulty-unit-and-clash")
+    run = common_run(part)
+    if run >= 5:
+        f.append("clash-run:%s" % ("5-15" if run <= 15 else "16-31" if run <= 31 else "32-40"))
     if case["dry_run"]:
         f.append("dry-run")
     if case["readdress"]:
@@ -361,6 +379,20 @@ def features(case):
     if case["permitted"] is not None:
         f.append("permitted-given-as:" + case.get("permitted_form", "list"))
     return f
+
+
+def common_run(part):
+    """The longest run of leading draws that two participating units have in common (that many consecutive clashes at
+    least, unless a unit found earlier in a pass ends it by using up the addresses)."""
+    best = 0
+    lists = [u.get("randoms") or [] for u in part]
+    for a in range(len(lists)):
+        for b in range(a + 1, len(lists)):
+            k = 0
+            while k < len(lists[a]) and k < len(lists[b]) and lists[a][k] == lists[b][k]:
+                k += 1
+            best = max(best, k)
+    return best
 
 
 NONTRIVIAL = ("clash-on-first-draw", "more-than-64-units", "permitted-set-exhausted", "unit-at-0-or-ffffff")
@@ -401,16 +433,38 @@ def case_strategy(draw, sizes=None):
             case["permitted_form"] = "range-if-contiguous"
         else:
             case["permitted_form"] = draw(st.sampled_from(FORMS))
-    # optional faulty unit - only where it is certain to be programmed and nothing clashes
-    if n and not dry and draw(st.integers(0, 5)) == 0:
+    # two or three units keep drawing the same random addresses for a while (0..40 consecutive clashes), then differ
+    if 2 <= n <= 20 and draw(st.integers(0, 3)) == 0:
+        idx = draw(st.permutations(list(range(n))))[:draw(st.sampled_from([2, 2, 3]))]
+        k = draw(st.one_of(st.integers(0, 40), st.integers(0, 40), st.sampled_from([7, 8, 9, 15, 16, 17, 31, 32, 33, 40])))
+        base = draw(st.one_of(st.sampled_from(POOL), st.integers(0, 0xFFFFFF)))
+        step = draw(st.sampled_from([0, 0, 1, 0x10101, 0xFFFFFF]))      # the same value every time, or one that moves
+        shared = [(base + j * step) & 0xFFFFFF for j in range(k)]
+        for i in idx:
+            units[i]["randoms"] = shared + draw(draws)
+        if draw(st.booleans()):
+            # the other units sit below / above / around the clashing ones all the time
+            where = draw(st.sampled_from(["below", "above", "any"]))
+            for i in range(n):
+                if i not in idx and where != "any":
+                    units[i]["randoms"] = [(i + 1 if where == "below" else 0xFFFF00 - i)] * draw(st.integers(0, 3))
+            if where == "below":
+                shared = [max(r, 0x000100) for r in shared]
+                for i in idx:
+                    units[i]["randoms"] = shared + units[i]["randoms"][k:]
+    # faulty units anywhere: whether one of them ever is programmed depends on the run (participation, free addresses,
+    # dry run, the clashes before it is found); the oracle asks the unit models what happened
+    if n and draw(st.integers(0, 3)) == 0:
+        how = draw(st.sampled_from(["sure", "any", "any"]))
         part = [i for i in range(n) if readdress or units[i]["short"] is None]
         perm = set(range(64)) if permitted is None else set(permitted)
         in_use = set(units[i]["short"] for i in range(n) if i not in part)
-        if part and len(perm - in_use) >= len(part):
-            for i, u in enumerate(units):
-                u["randoms"] = []          # distinct fallback draws only: no clash
-            k = part[draw(st.integers(0, len(part) - 1))]
-            units[k]["fault"] = draw(st.sampled_from(["ignore_program", "mute_verify"]))
+        if how == "sure" and part and not dry and len(perm - in_use) >= len(part):
+            k = part[draw(st.integers(0, len(part) - 1))]          # certain to be programmed
+            units[k]["fault"] = draw(st.sampled_from(FAULTS))
+        else:
+            for _ in range(draw(st.sampled_from([1, 1, 2]))):
+                units[draw(st.integers(0, n - 1))]["fault"] = draw(st.sampled_from(FAULTS))
     return case
 
 
@@ -427,6 +481,13 @@ def reducer(case):
             c = copy.deepcopy(case)
             c["units"][i]["randoms"] = c["units"][i]["randoms"][:-1]
             yield c
+    if any(len(u.get("randoms") or []) > 4 for u in case["units"]):
+        # one clash less in a long common run: the long streams all lose their first draw
+        c = copy.deepcopy(case)
+        for u in c["units"]:
+            if len(u.get("randoms") or []) > 4:
+                del u["randoms"][0]
+        yield c
     for i in range(n):
         if case["units"][i]["short"] is not None:
             c = copy.deepcopy(case)
@@ -442,9 +503,60 @@ def reducer(case):
         yield c
 
 
+def clash_run_cases(seed, ks=range(41)):
+    """Listed buses on which two units draw the same random address k times in a row (k consecutive search passes that
+    end in a clash) and then differ - alone, with healthy or faulty units whose random addresses lie below (found before
+    the clash in a pass) or above the clashing pair (reached only once the clashes are over), with few permitted
+    addresses, as a dry run; both readdress modes."""
+    out = []
+    for k in ks:
+        base = [0x400000, 0x001000 + ((seed * 7919 + 0x3039) & 0x7FFFFF), 0x000200][k % 3]
+        step = [0, 0x10101, 1][(k // 3) % 3]
+        shared = [(base + j * step) & 0xFFFFFF for j in range(k)]
+        lo, hi = [0x000010] * (k + 1), [0xFFFF00] * (k + 1)
+        fault = FAULTS[k % 3]
+        for readdress in (False, True):
+            def pair():
+                return [_u(None, shared + [0x000123]), _u(None, shared + [0xABCDEF])]
+            here = 40 if not readdress else None
+            out += [
+                _c(pair(), None, readdress),
+                _c([_u(None, lo)] + pair() + [_u(None, hi), _u(here, [0x700000 + j for j in range(k + 1)])], [3, 7, 9, 11], readdress,
+                   form="tuple"),
+                _c(pair() + [_u(None, shared[:k // 2] + [0x000055])], list(range(64)), readdress),
+                _c([_u(None, lo, fault=fault)] + pair(), None, readdress),
+                _c(pair() + [_u(None, hi, fault=fault), _u(here, [])], [5, 6, 7, 8], readdress, form="set"),
+                _c([_u(None, lo)] + pair(), [9], readdress),
+                _c([_u(None, lo)] + pair() + [_u(None, hi, fault=fault)], [9, 10, 11], readdress),
+                _c([_u(None, lo)] + pair() + [_u(None, hi)], None, readdress, dry=True),
+            ]
+    return out
+
+
+def _shard_runs(arg):
+    _, seed, stride, offset = arg
+    res = Result()
+    cases = clash_run_cases(seed)
+    for case in cases[offset::stride]:
+        res.count()
+        res.nontrivial()
+        fs = features(case)
+        run = [f for f in fs if f.startswith("clash-run")]
+        res.label("listed:" + (run[0] if run else "clash-run:0-4"))
+        if "faulty-unit" in fs:
+            res.label("listed:faulty-unit-and-clash-run")
+        for sig, msg in run_case(case):
+            res.violation(sig, case, msg)
+    if offset == 0:
+        res.sample(cases[8 * 2 * 20 + 3], cls="faulty unit below a pair that clashes 20 times")
+    return res
+
+
 def _shard(arg):
     if arg[0] == "inter":
         return _shard_inter(arg[1:])
+    if arg[0] == "runs":
+        return _shard_runs(arg)
     seed, n = arg
     res = Result()
     hyp.search(case_strategy(), run_case, res, n, seed, ID, shrink=False, reducer=reducer,
@@ -608,6 +720,8 @@ def _shard_inter(arg):
 def run(ctx):
     n = 1200 if ctx.quick else 16000
     shards = [(ctx.seed * 1000 + k, max(1, n // 16)) for k in range(16)]
+    for k in range(8):
+        shards.append(("runs", ctx.seed, 8, k))
     # two Commissioning runs in flight at the same time, each on its own bus
     for k in range(16):
         shards.append(("inter", "fixed", ctx.seed, not ctx.quick, 16, k))
